@@ -96,6 +96,12 @@ func recMakeValue(spec string) any {
 		return &net.OpError{Op: "write", Net: "tcp", Err: errors.New(msg)}
 	case "wrapop":
 		return fmt.Errorf("copy: %w", &net.OpError{Op: "write", Net: "tcp", Err: &os.SyscallError{Syscall: "write", Err: errors.New(msg)}})
+	case "opnested":
+		// what http.Transport produces through a proxy: the syscall error sits one OpError deeper
+		return &net.OpError{Op: "proxyconnect", Net: "tcp", Err: &net.OpError{Op: "write", Net: "tcp", Err: &os.SyscallError{Syscall: "write", Err: errors.New(msg)}}}
+	case "opwrapsys":
+		// the syscall error is wrapped with %w below the OpError
+		return &net.OpError{Op: "write", Net: "tcp", Err: fmt.Errorf("flush: %w", &os.SyscallError{Syscall: "write", Err: errors.New(msg)})}
 	}
 	panic("bad value spec " + spec)
 }
@@ -343,6 +349,11 @@ func runRecoveryTxn(fields []string) string {
 			return "I=setup-error\tO=" + err.Error()
 		}
 	}
+	for _, m := range []string{http.MethodPost, http.MethodPut, http.MethodDelete, "TRACE"} {
+		if _, err := f.Handle(m, "/seed/w/"+strings.ToLower(m), okHandler); err != nil {
+			return "I=setup-error\tO=" + err.Error()
+		}
+	}
 	before := fox.VerifDumpRouter(f)
 	stopAt, mode := -1, pos[:1]
 	if mode != "o" {
@@ -362,6 +373,27 @@ func runRecoveryTxn(fields []string) string {
 			if kind == "view" {
 				_ = txn.Has(http.MethodGet, "/seed/a")
 				_ = txn.Len()
+				continue
+			}
+			if strings.HasPrefix(kind, "updates-t") {
+				// the transaction begins with a Truncate (of GET, of everything, of a method without routes and GET)
+				if k == 0 {
+					var terr error
+					// (GET keeps its routes: the follow-up request goes to GET /ok)
+					switch kind {
+					case "updates-t1":
+						terr = txn.Truncate(http.MethodPost)
+					case "updates-t2":
+						terr = txn.Truncate(http.MethodPut, http.MethodPost)
+					default:
+						terr = txn.Truncate("TRACE", http.MethodDelete, http.MethodPost)
+					}
+					if terr != nil {
+						return terr
+					}
+				} else if _, err := txn.Handle([]string{http.MethodGet, http.MethodPost, "TRACE"}[k%3], "/tt"+itoa(k)+"/{p}", okHandler); err != nil {
+					return err
+				}
 				continue
 			}
 			switch k % 3 {
@@ -399,7 +431,7 @@ func runRecoveryTxn(fields []string) string {
 		}()
 		var err error
 		switch kind {
-		case "updates":
+		case "updates", "updates-t1", "updates-t2", "updates-t3":
 			err = f.Updates(body)
 		case "view":
 			err = f.View(body)
@@ -426,7 +458,8 @@ func runRecoveryTxn(fields []string) string {
 var recValues = []string{"error", "wabort", "abort", "str", "nil", "custom",
 	"opsys:" + hx("broken pipe"), "opsys:" + hx("connection reset by peer"), "opsys:" + hx("Broken Pipe"),
 	"opsys:" + hx("Connection Reset By Peer"), "opsys:" + hx("no space left on device"), "opsys:" + hx("broken"),
-	"opplain:" + hx("broken pipe"), "opplain:" + hx("i/o timeout"), "wrapop:" + hx("broken pipe")}
+	"opplain:" + hx("broken pipe"), "opplain:" + hx("i/o timeout"), "wrapop:" + hx("broken pipe"),
+	"opnested:" + hx("broken pipe"), "opnested:" + hx("connection refused"), "opwrapsys:" + hx("connection reset by peer"), "opwrapsys:" + hx("timeout")}
 
 var recSensitiveNames = []string{"Authorization", "Proxy-Authorization", "Cookie", "Set-Cookie", "X-Csrf-Token", "X-CSRF-Token", "X-Vault-Token"}
 var recOrdinaryNames = []string{"Accept", "X-Request-Id", "User-Agent", "X-Token", "Cookies", "Authorization-Info", "X-Csrf", "Content-Type"}
@@ -507,7 +540,7 @@ func genRecovery(r *Rng, tier string, n int, emit func(string)) {
 		}
 	}
 	// transactions: a panic / an error after every prefix, and completion
-	for _, kind := range []string{"updates", "view"} {
+	for _, kind := range []string{"updates", "view", "updates-t1", "updates-t2", "updates-t3"} {
 		for nops := 0; nops <= 5; nops++ {
 			for pos := 0; pos <= nops; pos++ {
 				emit(fmt.Sprintf("recovery\tT\t%s\t%s\t%d\tp%d", kind, Pick(r, recValues), nops, pos))
